@@ -139,19 +139,19 @@ def handle (toks : List String) : String :=
         | _ => ([], ["x"])
       match ints? aux, nats? chunkToks >>= parseChunks with
       | some aux, some cs =>
-        let init : List Int := List.replicate n (-7)
+        let init : Array Int := Array.replicate n (-7)
         let auxA := aux.toArray
-        let body : Option (Nat → List Int → List Int) := match kind with
-          | "fill" => some fun i s => s.set i 42
-          | "sequence" => some fun i s => s.set i i
-          | "transform" => some fun i s => s.set i (auxA[i]! * 3 + 1)
-          | "copy" => some fun i s => s.set i auxA[i]!
-          | "gather" => some fun i s => s.set i (1000 + auxA[i]!)      -- input[j] = 1000 + j
-          | "scatter" => some fun i s => s.set (auxA[i]!).toNat (1000 + i)
+        let body : Option (Nat → Array Int → Array Int) := match kind with
+          | "fill" => some fun i s => s.setIfInBounds i 42
+          | "sequence" => some fun i s => s.setIfInBounds i i
+          | "transform" => some fun i s => s.setIfInBounds i (auxA[i]! * 3 + 1)
+          | "copy" => some fun i s => s.setIfInBounds i auxA[i]!
+          | "gather" => some fun i s => s.setIfInBounds i (1000 + auxA[i]!)      -- input[j] = 1000 + j
+          | "scatter" => some fun i s => s.setIfInBounds (auxA[i]!).toNat (1000 + i)
           | _ => none
         match body with
         | none => "bad-op"
-        | some body => s!"{joinInt (parFor body cs init)} | {b2s (tiles (cs.mergeSort (fun a b => a.1 ≤ b.1)) 0 n)}"
+        | some body => s!"{joinInt (parFor body cs init).toList} | {b2s (tiles (cs.mergeSort (fun a b => a.1 ≤ b.1)) 0 n)}"
       | _, _ => "bad-op"
   | _ => "bad-op"
 
